@@ -370,8 +370,27 @@ class Interp:
                 return za / zb
             if sort == z3.RealSort():
                 raise Unsupported('floor division / modulo on reals')
+            if self.ghost.get('uninterpreted_mod') and not z3.is_int_value(zb):
+                return self.umod(za, zb, div=isinstance(op, ast.FloorDiv))
             return self.floordiv(za, zb) if isinstance(op, ast.FloorDiv) else self.pymod(za, zb)
         raise Unsupported(f'operator {type(op).__name__}')
+
+    MODU = z3.Function('pymod', z3.IntSort(), z3.IntSort(), z3.IntSort())
+    DIVU = z3.Function('pyfloordiv', z3.IntSort(), z3.IntSort(), z3.IntSort())
+
+    @classmethod
+    def umod_def(cls, a, b):
+        """defining property of Python's a // b, a % b (instance for the terms a, b)"""
+        q, r = cls.DIVU(a, b), cls.MODU(a, b)
+        return z3.And(a == b * q + r, z3.Implies(b > 0, z3.And(0 <= r, r < b)), z3.Implies(b < 0, z3.And(b < r, r <= 0)))
+
+    def umod(self, a, b, div=False):
+        """opt-in (ghost['uninterpreted_mod']): `%` / `//` with a symbolic divisor as uninterpreted functions whose defining
+        property is added for each term that the *code* computes (ground instances: no nonlinear term below a quantifier).
+        Inside specifications only the term is built; facts about it come from proved lemmas."""
+        if not self.spec_mode:
+            self.assume(self.umod_def(a, b))
+        return self.DIVU(a, b) if div else self.MODU(a, b)
 
     @staticmethod
     def floordiv(a, b):
